@@ -8,6 +8,7 @@ import (
 	"io"
 	"net"
 	"net/http"
+	"os"
 	"strings"
 	"sync"
 	"sync/atomic"
@@ -54,11 +55,15 @@ type c01tPub struct {
 	rtcp  map[uint32][]byte // id -> RTCP packet bytes as sent (video control channel)
 }
 
+// c01SSRC identifies this process's publisher: multicast groups and ports are allocated from a per-process counter, so
+// two check processes running at the same time on one host send to the same group; the other one's datagrams are foreign.
+var c01SSRC = 0x51510000 | uint32(os.Getpid()&0xffff)
+
 // c01RTCP builds a 28-byte sender report whose packet-count field carries the id.
 func c01RTCP(id uint32) []byte {
 	b := make([]byte, 28)
 	b[0], b[1], b[3] = 0x80, 200, 6
-	binary.BigEndian.PutUint32(b[4:], 0x5151)
+	binary.BigEndian.PutUint32(b[4:], c01SSRC)
 	binary.BigEndian.PutUint32(b[8:], 0x83aa7e80+1000+id) // NTP seconds
 	binary.BigEndian.PutUint32(b[16:], id*3000)           // RTP timestamp
 	binary.BigEndian.PutUint32(b[20:], id)                // sender's packet count = id
@@ -467,7 +472,7 @@ func c01RunTransports(c *kit.Ctx) {
 						}
 						continue
 					}
-					if k >= 12 && binary.BigEndian.Uint32(buf[8:12]) != 0x5151 {
+					if k >= 12 && binary.BigEndian.Uint32(buf[8:12]) != c01SSRC {
 						// datagram of some other sender on the same multicast group/port (another process on this host)
 						c.Count("foreign_multicast_datagrams_ignored", 1)
 						continue
@@ -574,7 +579,7 @@ func c01RunTransports(c *kit.Ctx) {
 				size = 9000 + (i*131)%6000
 			}
 			nal := kit.H264NAL(2, typ, size, uint64(id))
-			pk := kit.MakeRTP(kit.ChVideo, 96, true, uint16(i), id, 0x5151, nal)
+			pk := kit.MakeRTP(kit.ChVideo, 96, true, uint16(i), id, c01SSRC, nal)
 			pub.mu.Lock()
 			pub.video[id] = pk.Data
 			pub.nals[id] = nal
@@ -614,7 +619,7 @@ func c01RunTransports(c *kit.Ctx) {
 		for k := 0; k < 12; k++ {
 			id := uint32(n + 2 + k)
 			nal := kit.H264NAL(2, 1, 900, uint64(id))
-			pk := kit.MakeRTP(kit.ChVideo, 96, true, uint16(id), id, 0x5151, nal)
+			pk := kit.MakeRTP(kit.ChVideo, 96, true, uint16(id), id, c01SSRC, nal)
 			pub.mu.Lock()
 			pub.video[id] = pk.Data
 			pub.nals[id] = nal
